@@ -225,6 +225,8 @@ func (e *Env) resolveType(name string) (types.Type, Sort) {
 		return nil, SInt
 	case "bytes", "[]byte":
 		return types.NewSlice(types.Typ[types.Uint8]), SSlice
+	case "strmap":
+		return nil, Sort("(Array String String)")
 	case "[]string":
 		return types.NewSlice(types.Typ[types.String]), SSlice
 	case "time":
@@ -294,6 +296,27 @@ func (e *Env) ident(name string) Term {
 				}
 			}
 		}
+		if e.at != nil && e.phiEdge == nil && e.loopHdr == nil {
+			// a loop-carried variable of an enclosing loop (innermost header dominating the evaluation point)
+			var best *ssa.Phi
+			for hdr := range fr.loopCtx {
+				if !hdr.Dominates(e.at) || !fr.loopCtx[hdr].body[e.at] {
+					continue
+				}
+				for _, in := range hdr.Instrs {
+					p, ok := in.(*ssa.Phi)
+					if !ok {
+						break
+					}
+					if p.Comment == name && (best == nil || best.Block().Dominates(hdr)) {
+						best = p
+					}
+				}
+			}
+			if best != nil {
+				return fr.val(best)
+			}
+		}
 		for i, p := range fr.fn.Params {
 			if p.Name() == name {
 				return fr.params[i]
@@ -307,6 +330,17 @@ func (e *Env) ident(name string) Term {
 					return Term{fe.loadRef(e.st, t.S, pt.Elem()), fe.sorts.SortOf(pt.Elem()), pt.Elem()}
 				}
 				return t
+			}
+		}
+		// a local that lives in memory (address taken / captured): its current content
+		for _, b := range fr.fn.Blocks {
+			for _, in := range b.Instrs {
+				if al, ok := in.(*ssa.Alloc); ok && al.Comment == name {
+					if t, ok := fr.vals[al]; ok {
+						T := al.Type().Underlying().(*types.Pointer).Elem()
+						return Term{fe.loadRef(e.st, t.S, T), fe.sorts.SortOf(T), T}
+					}
+				}
 			}
 		}
 		if v := fr.localByName(name, e.at); v != nil {
@@ -678,6 +712,18 @@ func (e *Env) call(x *SExpr) Term {
 			e.fail("regex: %v", err)
 		}
 		return boolT(re)
+	case "mapget":
+		need(2)
+		a := args()
+		if !strings.HasPrefix(string(a[0].K), "(Array ") {
+			e.fail("mapget on non-array %s", x.Args[0])
+		}
+		parts := strings.Fields(strings.TrimSuffix(strings.TrimPrefix(string(a[0].K), "(Array "), ")"))
+		return Term{fmt.Sprintf("(select %s %s)", a[0].S, a[1].S), Sort(parts[len(parts)-1]), nil}
+	case "mapset":
+		need(3)
+		a := args()
+		return Term{fmt.Sprintf("(store %s %s %s)", a[0].S, a[1].S, a[2].S), a[0].K, nil}
 	case "stored":
 		// stored("Type.field"): some direct assignment to that field was executed by this function (or an inlined callee)
 		need(1)
